@@ -178,6 +178,59 @@ def check_used_set(ctx):
                       f"{name} stores `{v.id}` into a unit module but not every source of it is added to {USED}: {sources}", repo.loc(m, st),
                       sample={"function": name, "sources": [(a, b) for a, b, c in sources]})
     ctx.anchor("C13.U", "stores into a unit module", stores, 2)
+    # mark-then-map: once an address is marked in use, every way out of the function (return or raise) maps it or hands it on
+    from ..flow import CFG, header_parts
+    stores_param = {}
+    for name, fn in ex.methods.items():
+        ums = unit_module_locals(fn)
+        ps = A.param_names(fn)
+        for st in A.body_nodes(fn):
+            if isinstance(st, ast.Assign) and isinstance(st.targets[0], ast.Subscript) and isinstance(st.targets[0].value, ast.Name) and st.targets[0].value.id in ums \
+                    and isinstance(st.value, ast.Name) and st.value.id in ps:
+                stores_param.setdefault(name, set()).add(st.value.id)
+    marks = 0
+    for name, fn in sorted(ex.methods.items()):
+        cfg = None
+        ums = unit_module_locals(fn)
+        for st in A.body_nodes(fn):
+            v = None
+            if isinstance(st, ast.Assign) and isinstance(st.targets[0], ast.Name) and isinstance(st.value, ast.Call) and A.is_self_attr(st.value.func) and st.value.func.attr in adds_result:
+                v = st.targets[0].id
+            elif isinstance(st, ast.Expr) and is_used_call(st.value, "add") and st.value.args and isinstance(st.value.args[0], ast.Name):
+                v = st.value.args[0].id
+            if v is None:
+                continue
+            marks += 1
+            cfg = cfg or CFG(fn)
+            node = cfg.node(st)
+
+            def maps(s2, v=v, ums=ums):
+                for p_ in header_parts(s2):
+                    for x in ast.walk(p_):
+                        if isinstance(x, ast.Assign) and isinstance(x.targets[0], ast.Subscript) and isinstance(x.targets[0].value, ast.Name) and x.targets[0].value.id in ums \
+                                and isinstance(x.value, ast.Name) and x.value.id == v:
+                            return True
+                        if isinstance(x, ast.Return) and isinstance(x.value, ast.Name) and x.value.id == v:
+                            return True
+                        if isinstance(x, ast.Call) and A.is_self_attr(x.func) and x.func.attr in stores_param:
+                            for pn in stores_param[x.func.attr]:
+                                a = A.kwargs_of(x).get(pn)
+                                if isinstance(a, ast.Name) and a.id == v:
+                                    return True
+                return False
+
+            leaks = []
+            if node is not None:
+                if cfg.paths_avoiding(maps, node, cfg.raise_exit):
+                    leaks.append("a raise")
+                if cfg.paths_avoiding(maps, node, cfg.exit):
+                    leaks.append("a return")
+            ctx.fn(f"Executor.{name}")
+            ctx.check("C13.U", f"{name}:{v}:marked-address-is-mapped-on-every-way-out", node is not None and not leaks,
+                      f"{name} marks `{v}` as in use ({src(st)}) and can then leave through {' and '.join(leaks) or '?'} without mapping it into a unit module or handing it on: "
+                      "the address stays in the in-use set while no virtual qubit maps to it, and stopping the application never releases it", repo.loc(m, st),
+                      sample={"function": name, "mark": src(st)})
+    ctx.anchor("C13.U", "statements marking a physical address as in use", marks, 3)
     # _get_unused_physical_qubit picks an address that is not in the set
     fn = ex.methods.get("_get_unused_physical_qubit")
     if fn is None:
@@ -391,6 +444,9 @@ def run(ctx):
 X = "netqasm/backend/executor.py"
 Q = "netqasm/backend/qnodeos.py"
 SEEDS = [
+    dict(id="c13-mark-before-slot-test", file=X, expect="C13.U", construct="marked-address-is-mapped",
+         old="        if unit_module[virtual_address] is None:\n            if physical_address is None:\n                physical_address = self._get_unused_physical_qubit()\n                self._used_physical_qubit_addresses.add(physical_address)\n            unit_module[virtual_address] = physical_address",
+         new="        if physical_address is None:\n            physical_address = self._get_unused_physical_qubit()\n        if unit_module[virtual_address] is None:\n            unit_module[virtual_address] = physical_address"),
     dict(id="c13-stop-keeps-registers", file=X, expect="C13.R", construct="_registers", old="        self._clear_registers(app_id=app_id)\n", new=""),
     dict(id="c13-stop-keeps-arrays", file=X, expect="C13.R", construct="_app_arrays", old="        self._app_arrays.pop(app_id)", new="        self._app_arrays.get(app_id)"),
     dict(id="c13-remove-app", file=Q, expect="C13.R", construct="_active_app_ids", old="        self._remove_app(app_id=app_id)\n", new=""),
@@ -405,4 +461,8 @@ SEEDS = [
     dict(id="c13-bound", file=X, expect="C13.G", construct="bound-check", old="        if virtual_address >= len(unit_module):\n            app_id = self._subroutines[subroutine_id].app_id\n            raise ValueError(", new="        if virtual_address > len(unit_module):\n            app_id = self._subroutines[subroutine_id].app_id\n            raise ValueError("),
     dict(id="c13-unused-pick", file=X, expect="C13.U", construct="_get_unused_physical_qubit", old="            if physical_address not in self._used_physical_qubit_addresses:", new="            if physical_address not in self._qubit_unit_modules:"),
 ]
-BENIGN = []
+BENIGN = [
+    dict(id="c13-benign-drop-duplicate-add", file=X,
+         old="                physical_address = self._get_unused_physical_qubit()\n                self._used_physical_qubit_addresses.add(physical_address)\n",
+         new="                physical_address = self._get_unused_physical_qubit()\n"),
+]
